@@ -29,6 +29,11 @@ chk("C10",
     TRUST + "Builds that pass the documented -X testing flag are outside the property's quantifier. Not decided: nothing numeric; the history clause rests on AL-DOM plus the Bid writer table.",
     "who-may-write scan over the import closure + abstract path exploration under a fixed switch / failing lookup (finite domains)", "DESIGN.md section 4 C10")
 
+chk("C14",
+    "Structural necessary condition: in every function reachable from the message handlers, block hooks, genesis import/export and listener registration, (MAP-ORDER) each range over a map / maps.Keys result is order-insensitive — no store write, transfer, hook, event or early exit in the loop body (transitively through callees), loop-carried values are commutative accumulations, writes go to other maps under a key derived from the loop key, and any slice that collects elements in iteration order is sorted by a call that dominates every other use; (NONDET-API) no wall clock (except as a telemetry argument), randomness, environment, goroutines, select or floating point. The quantifier 'all iteration orders the runtime may choose' cannot be sampled by tests but is exactly what a dataflow rule over the loop body decides.",
+    TRUST + "Not decided: determinism of dependencies; cross-version stability of sort.Slice under SortBids' non-strict comparator (noted).",
+    "custom dataflow lint over go/ssa natural loops (loop-carried phi classification, effect summaries, sort-dominance)", "DESIGN.md section 4 C14")
+
 PENDING = {}  # property -> reason (kept current as checks are added)
 ALL = ["C%02d" % i for i in range(1, 21)]
 for p in ALL:
